@@ -54,6 +54,19 @@ class EntropyDevice:
             if f == "EAGAIN_ONCE":
                 self.fault = None
                 raise BlockingIOError(errno.EAGAIN, "entropy pool not initialised (simulated)")
+            if f == "EPERM":
+                raise PermissionError(errno.EPERM, "Operation not permitted (simulated seccomp policy)")
+            if f == "EACCES":
+                raise PermissionError(errno.EACCES, "Permission denied (simulated)")
+            if f == "ENOENT":
+                raise FileNotFoundError(errno.ENOENT, "No such file or directory: '/dev/urandom' (simulated chroot)")
+            if f == "ENOSYS":
+                raise OSError(errno.ENOSYS, "Function not implemented (simulated old kernel)")
+            if f == "EINTR_ONCE":
+                self.fault = None
+                raise InterruptedError(errno.EINTR, "Interrupted system call (simulated)")
+            if f == "EMFILE":
+                raise OSError(errno.EMFILE, "Too many open files (simulated)")
         if self.forced is not None:
             while len(self.forced) < n:
                 self.forced += hashlib.sha512(b"forced-tail|" + self.forced[-64:]).digest()
